@@ -1015,11 +1015,26 @@ Qed.
    Array_Cmp / List_Cmp / Tuple_Cmp, the loop of Tree_Cmp (key, then value), the six predicate
    definitions and the instance-else-memcmp rule of Cmp.c.  A changed shape leaves the definition
    out of Generated.v and this file no longer compiles (= broken obligation). *)
+(* cmp(): the outcome table computed from the C text (16 assignments of: instance present, cmp member
+   present, same type, size non-zero) is the documented dispatch: the instance when it has a cmp, else
+   memcmp over size(type_of(self)) for two objects of one type of non-zero size, else TypeError *)
+Definition cmp_dispatch_spec (hc hm t s : bool) : nat :=
+  if hc && hm then 0%nat else if t && s then 1%nat else 2%nat.
+Definition cmp_dispatch_ok (tbl : option (list (bool * bool * bool * bool * nat))) : bool :=
+  match tbl with
+  | Some l => (length l =? 16)%nat &&
+              forallb (fun r => match r with (hc, hm, t, s, o) => (o =? cmp_dispatch_spec hc hm t s)%nat end) l &&
+              forallb (fun q => existsb (fun r => match r, q with (hc, hm, t, s, _), (hc', hm', t', s') =>
+                                   Bool.eqb hc hc' && Bool.eqb hm hm' && Bool.eqb t t' && Bool.eqb s s' end) l)
+                      (list_prod (list_prod (list_prod [false; true] [false; true]) [false; true]) [false; true])
+  | None => false
+  end.
+
 Theorem source_shapes :
   code_is_compare false int_cmp_code /\ code_is_compare true float_cmp_code /\
   (exists l, pred_codes = Some l /\
      forall c, map (aeval false c [AOp0; AOp1]) l = map (fun i => Some (AC (b2z (pred_abs i c)))) [0; 1; 2; 3; 4; 5]%nat) /\
-  seq_cmp_shape_ok = true /\ tree_cmp_shape_ok = true /\ cmp_default_shape_ok = true.
+  seq_cmp_shape_ok = true /\ tree_cmp_shape_ok = true /\ cmp_dispatch_ok cmp_dispatch_table = true.
 Proof.
   split; [exact int_cmp_code_verified|]. split; [exact float_cmp_code_verified|]. split; [exact pred_codes_verified|].
   repeat split.
